@@ -99,6 +99,42 @@ inductive ChildOut
   | ok (rs : List Res) (task : Option CreateTaskCmd)
   | error (code : Nat)
 
+def routeOf : Cpl → Option String
+  | .router true recv => some recv
+  | _ => none
+
+def routeFailed : Cpl → Bool
+  | .router _ _ => false
+  | _ => true
+
+/-- the task created with the promise: the request's task command with the router's recv, or the
+    router-made init task -/
+def childTask (pc : CreatePromiseCmd) (taskCmd : Option CreateTaskCmd) : Option String → Option CreateTaskCmd
+  | none => none
+  | some recv => some (match taskCmd with
+    | some tc => { tc with recv := recv }
+    | none => { id := invokeId pc.id, recv := recv, mesg := { type := "invoke", root := pc.id, leaf := pc.id }, timeout := pc.timeout, processId := none, state := T_INIT, ttl := 0, expiresAt := 0, createdOn := pc.createdOn })
+
+def childCmd (pc : CreatePromiseCmd) : Option CreateTaskCmd → Cmd
+  | some tc => .createPromiseAndTask { promiseCommand := pc, taskCommand := tc }
+  | none => .createPromise pc
+
+def childStore (pc : CreatePromiseCmd) (ft : Option CreateTaskCmd) (extra : List Cmd) (k : ChildOut → Co) : Co :=
+  .yield [.store (childCmd pc ft :: extra)] fun _ cpls2 =>
+    match cpls2 with
+    | [.err] => k (.error S_AIO_STORE)
+    | [.store rs] =>
+      if rs.length != extra.length + 1 then .panic "createPromise: completion must have same number of results as commands"
+      else match rs.head? with
+        | some (.rows2 p t) =>
+          if p > 1 then .panic "createPromise: creating promise result must return 0 or 1 rows"
+          else if t != p then .panic "createPromise: if no promise was created a task must not have been created"
+          else k (.ok rs ft)
+        | some (.rows n) =>
+          if n > 1 then .panic "createPromise: CreatePromise result must return 0 or 1 rows" else k (.ok rs ft)
+        | _ => .panic "createPromise: first result must be CreatePromise or CreatePromiseAndTask"
+    | _ => .panic "createPromise: malformed store completion"
+
 /-- the `createPromise` child: ask the router, then write promise (+ task) (+ additional commands) in
     one transaction -/
 def createPromiseChild (promiseCmd : CreatePromiseCmd) (taskCmd : Option CreateTaskCmd) (extra : List Cmd)
@@ -106,36 +142,8 @@ def createPromiseChild (promiseCmd : CreatePromiseCmd) (taskCmd : Option CreateT
   .yield [.router (promiseOfCreate promiseCmd)] fun _ cpls =>
     match cpls with
     | [rc] =>
-      let routed : Option String := match rc with
-        | .router true recv => some recv
-        | _ => none
-      let routerFailed : Bool := match rc with
-        | .router _ _ => false
-        | _ => true
-      if taskCmd.isSome && (routerFailed || routed.isNone) then k (.error S_PROMISE_RECV_NOT_FOUND)
-      else
-        let finalTask : Option CreateTaskCmd := match routed with
-          | none => none
-          | some recv => some (match taskCmd with
-            | some tc => { tc with recv := recv }
-            | none => { id := invokeId promiseCmd.id, recv := recv, mesg := { type := "invoke", root := promiseCmd.id, leaf := promiseCmd.id }, timeout := promiseCmd.timeout, processId := none, state := T_INIT, ttl := 0, expiresAt := 0, createdOn := promiseCmd.createdOn })
-        let cmd : Cmd := match finalTask with
-          | some tc => .createPromiseAndTask { promiseCommand := promiseCmd, taskCommand := tc }
-          | none => .createPromise promiseCmd
-        .yield [.store (cmd :: extra)] fun _ cpls2 =>
-          match cpls2 with
-          | [.err] => k (.error S_AIO_STORE)
-          | [.store rs] =>
-            if rs.length != extra.length + 1 then .panic "createPromise: completion must have same number of results as commands"
-            else match rs.head? with
-              | some (.rows2 p t) =>
-                if p > 1 then .panic "createPromise: creating promise result must return 0 or 1 rows"
-                else if t != p then .panic "createPromise: if no promise was created a task must not have been created"
-                else k (.ok rs finalTask)
-              | some (.rows n) =>
-                if n > 1 then .panic "createPromise: CreatePromise result must return 0 or 1 rows" else k (.ok rs finalTask)
-              | _ => .panic "createPromise: first result must be CreatePromise or CreatePromiseAndTask"
-          | _ => .panic "createPromise: malformed store completion"
+      if taskCmd.isSome && (routeFailed rc || (routeOf rc).isNone) then k (.error S_PROMISE_RECV_NOT_FOUND)
+      else childStore promiseCmd (childTask promiseCmd taskCmd (routeOf rc)) extra k
     | _ => .panic "createPromise: malformed router completion"
 
 /-- `createPromiseAndTask(c, r, createPromiseReq, taskCmd)`; `withTask` = the request kind is
@@ -493,8 +501,21 @@ def timeoutTasks (env : Env) (t0 : Time) : Co :=
             .updateTask { id := r.id, processId := none, state := T_INIT, counter := r.counter + 1, attempt := 0, ttl := 0, expiresAt := 0, completedOn := none, currentStates := [r.state], currentCounter := r.counter }
           else
             .updateTask { id := r.id, processId := none, state := T_TIMEDOUT, counter := r.counter, attempt := r.attempt, ttl := 0, expiresAt := 0, completedOn := some r.timeout, currentStates := [r.state], currentCounter := r.counter }
-        .yield [.store cmds] fun _ _ => .done none
+        if cmds.isEmpty then .done none else .yield [.store cmds] fun _ _ => .done none
     | _ => .panic "timeoutTasks: malformed completion"
+
+/-- the update written for one dispatched task, given the hand-off outcome -/
+def enqueueOutcomeCmd (expiresAt : Int) (r : TaskRow) (o : Cpl) : Cmd :=
+  if r.mesg.type == "notify" then
+    .updateTask { id := r.id, processId := none, state := T_COMPLETED, counter := r.counter, attempt := r.attempt, ttl := 0, expiresAt := expiresAt, completedOn := none, currentStates := [T_INIT], currentCounter := r.counter }
+  else if (match o with | .sender true => true | _ => false) then
+    .updateTask { id := r.id, processId := none, state := T_ENQUEUED, counter := r.counter, attempt := r.attempt, ttl := 0, expiresAt := expiresAt, completedOn := none, currentStates := [T_INIT], currentCounter := r.counter }
+  else
+    .updateTask { id := r.id, processId := none, state := T_INIT, counter := r.counter, attempt := r.attempt + 1, ttl := 0, expiresAt := expiresAt, completedOn := none, currentStates := [T_INIT], currentCounter := r.counter }
+
+def enqueueFinish (deadCmds : List Cmd) (live : List TaskRow) (expiresAt : Int) (outs : List Cpl) : Co :=
+  let cmds := deadCmds ++ (live.zip outs).map fun (r, o) => enqueueOutcomeCmd expiresAt r o
+  if cmds.isEmpty then .done none else .yield [.store cmds] fun _ _ => .done none
 
 def enqueueTasks (env : Env) (t0 : Time) : Co :=
   .yield [.store [.readEnqueueableTasks { time := t0, limit := env.cfg.taskBatchSize }]] fun _ cpls =>
@@ -523,17 +544,8 @@ def enqueueTasks (env : Env) (t0 : Time) : Co :=
                   | .promises (row :: _) => some row.toPromise
                   | _ => none
                 .sender { task := { tk with state := T_ENQUEUED, expiresAt := expiresAt }, promise := p, claimHref := env.cfg.url ++ "/tasks/claim/" ++ tk.id ++ "/" ++ toString tk.counter, completeHref := env.cfg.url ++ "/tasks/complete/" ++ tk.id ++ "/" ++ toString tk.counter, heartbeatHref := env.cfg.url ++ "/tasks/heartbeat/" ++ tk.id ++ "/" ++ toString tk.counter }
-              let finish (outs : List Cpl) : Co :=
-                let liveCmds : List Cmd := (live.zip outs).map fun ((r, _), o) =>
-                  if r.mesg.type == "notify" then
-                    .updateTask { id := r.id, processId := none, state := T_COMPLETED, counter := r.counter, attempt := r.attempt, ttl := 0, expiresAt := expiresAt, completedOn := none, currentStates := [T_INIT], currentCounter := r.counter }
-                  else if (match o with | .sender true => true | _ => false) then
-                    .updateTask { id := r.id, processId := none, state := T_ENQUEUED, counter := r.counter, attempt := r.attempt, ttl := 0, expiresAt := expiresAt, completedOn := none, currentStates := [T_INIT], currentCounter := r.counter }
-                  else
-                    .updateTask { id := r.id, processId := none, state := T_INIT, counter := r.counter, attempt := r.attempt + 1, ttl := 0, expiresAt := expiresAt, completedOn := none, currentStates := [T_INIT], currentCounter := r.counter }
-                .yield [.store (deadCmds ++ liveCmds)] fun _ _ => .done none
-              if senders.isEmpty then finish []
-              else .yield senders fun _ outs => finish outs
+              if senders.isEmpty then enqueueFinish deadCmds (live.map (·.1)) expiresAt []
+              else .yield senders fun _ outs => enqueueFinish deadCmds (live.map (·.1)) expiresAt outs
           | _ => .panic "enqueueTasks: malformed completion"
     | _ => .panic "enqueueTasks: malformed completion"
 
